@@ -63,7 +63,13 @@ Corpus == <<
   L(<<"typedef", "int", "arr_t", "[", "...", "]", ";">>),
   L(<<"int", "(", "__stdcall", "*", "cb", ")", "(", "int", ")", ";">>),
   L(<<"typedef", "struct", "{", "short", "s", ";", "}", "anon_t", ";">>),
-  L(<<"long", "double", "ld_fn", "(", "float", ",", "_Bool", ")", ";">>)
+  L(<<"long", "double", "ld_fn", "(", "float", ",", "_Bool", ")", ";">>),
+  (* the '...' forms whose type is SEVERAL keywords (cdef rewrites them textually before the C
+     parser sees them): the gaps between the keywords and between the last keyword and '...' *)
+  L(<<"typedef", "unsigned", "long", "...", "ulfuzzy_t", ";">>),
+  L(<<"typedef", "long", "long", "int", "...", "llfuzzy_t", ";">>),
+  L(<<"typedef", "float", "...", "ffuzzy_t", ";">>),
+  L(<<"enum", "given", "{", "GA", "=", "...", ",", "GB", ",", "...", "}", ";">>)
 >>
 
 Cdefs == JsonDeserialize(IOEnv.CDEF_FILE)          \* sequence of sequences of Corpus indices
@@ -118,6 +124,14 @@ Filled(ln, p, tr) ==
       [] tr.kind = "continuation" -> tr.text
       [] tr.kind = "directive" -> "\n" \o tr.text \o "\n"
 
+(* a gap INSIDE the type of an ellipsis form: between two of the integer keywords of
+   'typedef unsigned long ... T;' (the keyword run ends at a '...').  The keywords are separate
+   tokens, so every piece of trivia that is legal in a declaration is legal there too. *)
+IntKw == {"int", "long", "short", "signed", "unsigned", "char"}
+InEllipsisType(ln, p) ==
+    /\ p >= 1 /\ p < Len(ln.toks) /\ ln.toks[p] \in IntKw /\ ln.toks[p + 1] \in IntKw
+    /\ \E q \in (p + 2)..Len(ln.toks) : ln.toks[q] = "..." /\ \A j \in (p + 1)..(q - 1) : ln.toks[j] \in IntKw
+
 (* the class of a gap, used to name findings *)
 PosClass(ln, p) ==
     LET n == Len(ln.toks) IN
@@ -125,6 +139,7 @@ PosClass(ln, p) ==
     THEN (CASE p = 0 -> "before-hash" [] p = 1 -> "after-hash" [] p = 2 -> "before-macro-name"
             [] p = n -> "end" [] p = 3 -> "before-value" [] OTHER -> "inside-value")
     ELSE (IF p = 0 THEN "start" ELSE IF p = n THEN "end"
+          ELSE IF InEllipsisType(ln, p) THEN "in-ellipsis-type"
           ELSE IF TokAt(ln, p) = "..." \/ TokAt(ln, p + 1) = "..." THEN "at-ellipsis"
           ELSE IF TokAt(ln, p) = "\"Python\"" \/ TokAt(ln, p + 1) = "\"Python\"" THEN "at-extern-python"
           ELSE IF TokAt(ln, p) = "__stdcall" \/ TokAt(ln, p + 1) = "__stdcall" THEN "at-stdcall"
@@ -168,6 +183,14 @@ RenderAll(l, acc) ==
 Render == RenderAll(1, "")
 
 (* design-level checks *)
+(* every ellipsis form of the corpus offers its inner gaps: a line whose '...' follows two or more
+   integer keywords has a gap of class in-ellipsis-type, and every trivia legal in a declaration
+   is legal there (checked on the corpus itself, not only on the chosen cdefs) *)
+EllipsisTypeGapsOffered ==
+    \A c \in 1..Len(Corpus) : \A p \in 1..(Len(Corpus[c].toks) - 1) :
+       InEllipsisType(Corpus[c], p) =>
+          /\ Corpus[c].kind = "decl" /\ PosClass(Corpus[c], p) = "in-ellipsis-type"
+          /\ \A tr \in Trivia : tr.kind \notin {"continuation", "nospace"} => Legal(Corpus[c], p, tr)
 OrderedIns == \A i \in 1..(Len(ins) - 1) : After(ins[i], ins[i + 1].l, ins[i + 1].p)
 AllLegal == \A i \in 1..Len(ins) : Legal(Corpus[Cdefs[k][ins[i].l]], ins[i].p, TrivOf(ins[i].tr))
 (* a directive line never receives a newline in its middle, a declaration never a continuation *)
